@@ -242,6 +242,46 @@ def check(case):
                         "C02/displacement/%s/%s" % (name, "orth" if orth else "nonorth"),
                         {"region": reg["name"], "ix": int(i + i0), "iy": int(j + j0), "metric": float(got[i, j]), "fd_h": float(q1[i, j]), "fd_2h": float(q2[i, j])},
                     )
+            # the same at the ylow location, including the first y-face of the region, whose lower
+            # neighbour's last cell centre lies in another region (X-point joins, branch cut):
+            # poloidal part of g_22_ylow vs the displacement between the two adjacent cell centres
+            lower = side["connections"][rid].get("lower")
+            Rl = Zl = None
+            if lower is not None:
+                fl = side["regions"][lower]["fields"]
+                Rl, Zl = fl["Rxy"]["centre"][:, -1], fl["Zxy"]["centre"][:, -1]
+            jlo = 0 if Rl is not None else 1
+            if nyr - jlo >= 1:
+                Rprev = numpy.concatenate([Rl[:, None], Rc[:, :-1]], axis=1) if Rl is not None else numpy.concatenate([Rc[:, :1], Rc[:, :-1]], axis=1)
+                Zprev = numpy.concatenate([Zl[:, None], Zc[:, :-1]], axis=1) if Zl is not None else numpy.concatenate([Zc[:, :1], Zc[:, :-1]], axis=1)
+                Ryl, Zyl = Ry[:, :nyr], Zy[:, :nyr]
+                chord = numpy.hypot(Rc - Rprev, Zc - Zprev)
+                poly = numpy.hypot(Ryl - Rprev, Zyl - Zprev) + numpy.hypot(Rc - Ryl, Zc - Zyl)
+                qa, qb = (poly / dyv) ** 2, (chord / dyv) ** 2
+                sly = (slice(xs, xe), slice(ys, ye))
+                got = nc["g_22_ylow"][sly] - (nc["Rxy_ylow"][sly] * nc["dphidy_ylow"][sly]) ** 2
+                nearx = gridcheck.near_xpoint_mask(Ryl, Zyl, xpts, 0.0)
+                b = 2.0 * numpy.abs(qa - qb) + 0.03 * qa
+                if Rl is not None and "contour_first" in reg and "contour_last" in side["regions"][lower]:
+                    # at a join the stored face is the upper region's point; hy is measured to each
+                    # region's own contour end, up to a few 1e-4 m away next to an X-point (the
+                    # listed finding C05-xpoint-join-face-gap): widen by that distance
+                    own = numpy.asarray(reg["contour_first"])[1::2]
+                    nb = numpy.asarray(side["regions"][lower]["contour_last"])[1::2]
+                    face = numpy.stack([Ry[:, 0], Zy[:, 0]], -1)
+                    gap = numpy.maximum(numpy.linalg.norm(own - face, axis=-1), numpy.linalg.norm(nb - face, axis=-1))
+                    b[:, 0] += 4.0 * poly[:, 0] * gap / dyv**2
+                ratio = numpy.abs(got - qa) / b
+                ratio = numpy.where(nearx, 0.0, ratio)[i0:i1, jlo:]
+                if ratio.size:
+                    margin("fd-g_22-poloidal-ylow", ratio.max())
+                    if ratio.max() > 1.0:
+                        i, j = numpy.unravel_index(int(numpy.argmax(ratio)), ratio.shape)
+                        fail(
+                            "C02/displacement/g_22-poloidal-ylow/%s" % ("orth" if orth else "nonorth"),
+                            {"region": reg["name"], "ix": int(i + i0), "iy": int(j + jlo), "at_region_join": bool(j + jlo == 0),
+                             "metric": float(got[i + i0, j + jlo]), "polyline": float(qa[i + i0, j + jlo]), "chord": float(qb[i + i0, j + jlo])},
+                        )
             # g_12 = e_x.e_y (poloidal part; the toroidal part is I*... = 0 for shifted metric)
             cosang = q12_1 / numpy.sqrt(q11_1 * q22_1)
             b = band(q12_1, q12_2) + 0.02 * numpy.sqrt(q11_1 * q22_1)
